@@ -518,10 +518,10 @@ const maxCallDepth = 400
 
 func (i *interpreter) callSSA(caller *frame, callpos token.Pos, fn *ssa.Function, args []value, env []value) value {
 	fr := &frame{i: i, caller: caller, fn: fn, callpos: callpos}
-	if caller != nil {
-		fr.tolerant = caller.tolerant
-	}
 	if fn.Parent() == nil {
+		if caller != nil && caller.tolerant && fn.Name() == "init" && fn.Synthetic != "" {
+			return nil // package initialisers are run by the executor in dependency order
+		}
 		if ext := i.sh.intrinsicFor(fn); ext != nil {
 			i.noteModel(fn)
 			return ext(fr, args)
